@@ -22,6 +22,7 @@ def stepSub : Step → Nat
   | .forwardIncl i _ => i
   | .emit i => i
   | .emitIncl i _ => i
+  | .seed i _ => i
   | .dropIn i => i
   | .mergeIn i => i
   | _ => 0
@@ -47,10 +48,12 @@ def GS.init {M : Type} [Inhabited M] : GS M := { v := VS.init, mown := fun _ => 
 def ValsOwned {M : Type} (g : GS M) (o : Option Nat) (e : Ev) : Prop :=
   ∀ r, r ∈ e.vals → r < g.v.mnext ∧ g.mown r = o
 
-/-- writers send stored messages: the values of a `send` / `vsend` are cells a writer stored -/
+/-- writers send stored messages: the values of a `send` / `vsend` are cells a writer stored; so are the values of a seed
+(the current value(s) of the resource) -/
 def SendOK {M : Type} (g : GS M) : VStep M → Prop
   | .ev (.send e) => ValsOwned g none e
   | .ev (.vsend e) => ValsOwned g none e
+  | .ev (.seed _ e) => ValsOwned g none e
   | _ => True
 
 /-- a run in which every send carries stored messages -/
